@@ -15,6 +15,7 @@ pub mod drive;
 pub mod limits;
 pub mod twin;
 pub mod bitsrep;
+pub mod codec;
 
 // ------------------------------------------------------------------ PRNG (splitmix64)
 #[derive(Clone)]
